@@ -23,7 +23,11 @@ RULE = ("seeded generator; exact family = dyadic start/stop, n-1 in {1,2,4,8,16,
         "multiples of step/4 (classes on_grid, half_tie, off_grid, mixed, narrow (no node gets a value), defaults "
         "(start/stop None), inf (infinite bars, several degrees), scale 2^+-20, dup (repeated bars), errors), compared "
         "exactly; tolerance family = random doubles, 2-40 nodes, end points at least 1e-6*step away from half-way points, "
-        "compared within 1e-9*scale; thorough adds grids up to 129 nodes, up to 12 bars and a bounded-exhaustive sweep of "
+        "compared within 1e-9*scale; size class (3 cases quick / 12 thorough) = 2200-6000 mostly short bars on 257/500/513-node "
+        "grids (num_steps x bars > 2^20; default grid and explicit grids; largest death = stop or in the upper half of the "
+        "last cell): the independent predicate checks the half-step bound for all depths at 6 fixed nodes (first two, last "
+        "four) and 6 random nodes, landscaper == approx and the death vector; the Coq model is NOT run on these (verdict "
+        "skip:size, vm_compute of ~5000 snaps on 500 nodes is too slow); thorough adds grids up to 129 nodes, up to 12 bars and a bounded-exhaustive sweep of "
         "all bars / pairs of bars on quarter-step positions of the 3- and 5-node grids. A case is non-trivial when the call succeeds, some node receives a value and "
         "either an end point is off the grid or two bars overlap at a node (depth >= 2); distinct = distinct JSON input")
 TRUSTED_BASE = [
@@ -132,11 +136,76 @@ def _tol_case(rng, big=False):
             "rep": "float"}
 
 
+BIG_KINDS = ["big_default500", "big_explicit513", "big_explicit257", "big_explicit500"]
+
+
+def _big_case(rng, kind):
+    """Size class: thousands of bars, so that num_steps x number of bars exceeds 2^20 (where an implementation may
+    switch to a memory-saving snapping path).  Mostly short bars (cheap for the ramp loops) plus a few long bars
+    whose death lies in the upper half of the last grid cell / is the largest death.  Only a sample of columns is
+    observed (incl. the last cells); the Coq model is not run on these (verdict skip:size)."""
+    if kind in ("big_explicit513", "big_explicit257"):
+        m = 512 if kind == "big_explicit513" else 256
+        nb = rng.randint(2200, 2500) if m == 512 else rng.randint(4200, 6000)
+        step = 2.0 ** rng.randint(-3, 1)
+        start = rng.randint(-8, 8) * 0.25
+        stop = start + m * step
+        Q4 = 4 * m
+        bars = []
+        for _ in range(nb):
+            qb = rng.randint(0, Q4 - 40)
+            bars.append([start + qb * step / 4, start + (qb + rng.randint(0, 26)) * step / 4])
+        for qd in (Q4 - 1, Q4 - 1, Q4, Q4 - 2):   # upper half of the last cell, the last node, the half-way tie
+            qb = qd - 4 * rng.randint(3, 40) - rng.randint(0, 3)
+            bars[rng.randrange(len(bars))] = [start + qb * step / 4, start + qd * step / 4]
+        c = {"family": "exact", "n": m + 1, "start": start, "stop": stop}
+    else:
+        n = 500
+        nb = rng.randint(2200, 2600)
+        lo = rng.choice([0.0, rng.uniform(-5, 5)])
+        hi = lo + rng.choice([1.0, rng.uniform(0.5, 50)])
+        default = kind == "big_default500"
+        flo, fhi = Fraction(lo), Fraction(hi)
+        step = (fhi - flo) / (n - 1)
+        fstep = float(step)
+
+        def ok(x):
+            u = (Fraction(x) - flo) / step
+            frac = u - (u.numerator // u.denominator)
+            return abs(frac - Fraction(1, 2)) > Fraction(1, 10 ** 6) and flo <= Fraction(x) <= fhi
+        bars = []
+        while len(bars) < nb:
+            b = rng.uniform(lo, lo + 0.9 * (hi - lo))
+            d = b + rng.uniform(0.0, 6.5) * fstep
+            if ok(b) and ok(d):
+                bars.append([b, d])
+        top = hi if default else float(fhi - Fraction(rng.uniform(0.05, 0.45)) * step)   # the largest death
+        specials = [[lo, lo + rng.uniform(2.1, 5.4) * fstep], [top - rng.uniform(3.1, 40.4) * fstep, top]]
+        for _ in range(2):
+            d = float(fhi - Fraction(rng.uniform(0.05, 0.45)) * step)
+            specials.append([d - rng.uniform(3.1, 30.4) * fstep, min(d, top)])
+        specials = [[b, d] for b, d in specials if ok(b) and ok(d) and b <= d]
+        if default and (len(specials) < 2 or specials[0][0] != lo or specials[1][1] != hi):
+            specials = [[lo, lo + 3.25 * fstep], [hi - 7.25 * fstep, hi]]
+        for sp in specials:
+            bars[rng.randrange(len(bars))] = sp
+        if default:   # make sure the default grid is [lo, hi]
+            bars[0], bars[1] = specials[0], specials[1]
+            bars = [[max(b, lo), min(d, hi)] for b, d in bars]
+        c = {"family": "tol", "n": n, "start": None if default else lo, "stop": None if default else hi}
+    n = c["n"]
+    cols = sorted(set([0, 1, n - 4, n - 3, n - 2, n - 1] + [rng.randrange(n) for _ in range(6)]))
+    c.update({"cls": kind, "dgms": [bars], "hom_deg": 0, "rep": "float", "big": True, "cols": cols, "vec": False})
+    return c
+
+
 def generate(rng, tier):
     n_exact, n_tol = (420, 180) if tier == "quick" else (7000, 3000)
     classes = ["on_grid", "half_tie", "off_grid", "mixed", "mixed", "narrow", "defaults", "inf", "scale", "dup"]
     cases = []
     big = tier != "quick"
+    for i in range(3 if tier == "quick" else 12):
+        cases.append(_big_case(rng, BIG_KINDS[i % len(BIG_KINDS)] if tier != "quick" else BIG_KINDS[i]))
     for i in range(n_exact):
         cases.append(_exact_case(rng, classes[i % len(classes)], big and i % 4 == 0))
     for i in range(n_tol):
@@ -156,7 +225,7 @@ def generate(rng, tier):
             c["cls"] = "err_empty"
         cases.append(c)
     for c in cases:
-        c["vec"] = _vec_ok(c)
+        c["vec"] = False if c.get("big") else _vec_ok(c)
     return cases
 
 
@@ -243,6 +312,31 @@ def impl_run(cases):
         kw = dict(start=c["start"], stop=c["stop"], num_steps=c["n"], hom_deg=c["hom_deg"])
         o = {}
         sink = io.StringIO()
+        if c.get("big"):
+            # size class: only a sample of columns crosses the boundary
+            with contextlib.redirect_stdout(sink):
+                keep = {}
+
+                def approx_big():
+                    p = PersLandscapeApprox(dgms=arrs(), **kw)
+                    v = np.asarray(p.values)
+                    keep["v"] = v
+                    if v.dtype.kind not in "fiu" or v.ndim != 2:
+                        return _enc_values(v) if v.size < 1000 else {"error": "BadValues", "msg": "dtype %s shape %s" % (v.dtype, v.shape)}
+                    return {"big": True, "shape": list(v.shape), "nan": bool(np.isnan(v).any()),
+                            "cols": {str(i): v[:, i].astype(float).tolist() for i in c["cols"] if i < v.shape[1]},
+                            "start": float(p.start), "stop": float(p.stop), "max_depth": int(p.max_depth)}
+                o["approx"] = core.guarded(approx_big)
+
+                def same(flatten):
+                    t = np.asarray(PersistenceLandscaper(flatten=flatten, **kw).fit_transform(arrs()))
+                    want = keep["v"].flatten() if flatten else keep["v"]
+                    return {"same": bool(t.shape == want.shape and np.array_equal(t, want)), "shape": list(t.shape)}
+                o["land"] = core.guarded(lambda: same(False))
+                o["flat"] = core.guarded(lambda: same(True))
+                o["dv"] = core.guarded(lambda: {"vals": [("inf" if x == float("inf") else float(x)) for x in death_vector(arrs())]})
+            outs.append(o)
+            continue
         with contextlib.redirect_stdout(sink):
             def approx():
                 p = PersLandscapeApprox(dgms=arrs(), **kw)
@@ -341,6 +435,8 @@ def predicate(c, o):
     bad = _numeric(a, "approx")
     if bad:
         return False, bad
+    if c.get("big"):
+        return _predicate_big(c, o, bars, start, stop, step, slack)
     rows = a["rows"]
     if len(a["shape"]) == 2 and a["shape"][1] != n:
         return False, "shape(approx): %s for %d nodes" % (a["shape"], n)
@@ -396,9 +492,41 @@ def predicate(c, o):
     return True, ""
 
 
+def _predicate_big(c, o, bars, start, stop, step, slack):
+    """the half-step bound at the sampled nodes (all depths), for the size class"""
+    a, n = o["approx"], c["n"]
+    if not a.get("big") or len(a["shape"]) != 2 or a["shape"][1] != n:
+        return False, "shape(approx): %s for %d nodes" % (a.get("shape"), n)
+    if a["nan"]:
+        return False, "nan(approx): values contain nan"
+    on_grid = all(((x - start) / step).denominator == 1 for bd in bars for x in bd)
+    bound = slack if on_grid else step / 2 + slack
+    for i in c["cols"]:
+        col = a["cols"].get(str(i))
+        if col is None:
+            return False, "shape(approx): node %d missing" % i
+        g = start + i * step
+        tents = sorted((min(g - b, d - g) for b, d in bars if b < g < d), reverse=True)
+        for k in range(max(len(col), len(tents)) + 1):
+            v = Fraction(col[k]) if k < len(col) else Fraction(0)
+            true = tents[k] if k < len(tents) else Fraction(0)
+            if abs(v - true) > bound:
+                return False, ("half-step: depth %d node %d (t=%s): value %s, k-th largest tent %s, |diff| %s > %s (%d bars)"
+                               % (k, i, float(g), float(v), float(true), float(abs(v - true)), float(bound), len(bars)))
+    for key in ("land", "flat"):
+        t = o.get(key, {})
+        if "error" in t:
+            return False, "unexpected-error(%s): %s" % (key, t)
+        if not t.get("same"):
+            return False, "landscaper(%s): transformer output differs from PersLandscapeApprox.values" % key
+    return True, ""
+
+
 def nontrivial(c, o):
     sc = _scope(c)
     a = o.get("approx", {})
+    if c.get("big"):
+        return sc is not None and a.get("big") is True and a["shape"][0] >= 1
     if sc is None or "rows" not in a or not a["rows"]:
         return False
     bars, start, stop, step = sc
@@ -511,6 +639,9 @@ def coq_judge(cases, outs, results):
     verdicts = ["disagree:observation not expressible (nan/inf, unknown exception or unknown marker)"] * len(cases)
     terms, idx = [], []
     for i, (c, o) in enumerate(zip(cases, outs)):
+        if c.get("big"):
+            verdicts[i] = "skip:size (thousands of bars: vm_compute of the model is not run, predicate only)"
+            continue
         t = _term(c, o)
         if t is not None:
             idx.append(i)
@@ -539,8 +670,18 @@ def shrink_candidates(c):
         d = dict(c)
         d.update(kw)
         d["dgms"] = [[list(b) for b in dg] for dg in d["dgms"]]
-        d["vec"] = _vec_ok(d)
+        d["vec"] = False if d.get("big") else _vec_ok(d)
         return d
+    if c.get("big"):
+        # drop blocks of bars (the failure may need the size, so only a few coarse candidates);
+        # with explicit grid ends only, so that the grid does not move
+        dg = c["dgms"][0]
+        if c["start"] is not None and len(dg) > 8:
+            h = len(dg) // 2
+            q = len(dg) // 4
+            for lo_, hi_ in ((0, h), (h, len(dg)), (0, q), (len(dg) - q, len(dg))):
+                yield mk(dgms=[dg[:lo_] + dg[hi_:]])
+        return
     if len(c["dgms"]) > 1 and c["hom_deg"] < len(c["dgms"]):
         yield mk(dgms=[c["dgms"][c["hom_deg"]]], hom_deg=0)
     if c["hom_deg"] < len(c["dgms"]):
